@@ -64,7 +64,8 @@ Theorem C06_find_root_range :
 Proof. exact find_root_range. Qed.
 Print Assumptions C06_find_root_range.
 
-(* Equivariance under increasing affine maps / direction reversal: checked on the implementation (C08). *)
+(* Equivariance under increasing affine maps: Props/C08.v, C08_eer_affine_compatible (maps commuting with nextafter: identical
+   EER, mapped threshold); general maps and direction reversal: checked on the implementation (C06 / C08 oracles). *)
 
 Example C06_example :
   match eer succ64 pred64 64 (mk_scores [1#1; 3#1; 5#1; 7#1] [0#1; 2#1; 4#1; 6#1] 0 0 Pos Pos false) with
